@@ -9,12 +9,14 @@ from collections import namedtuple
 
 from ural.ensure_protocol import ensure_protocol
 from ural.utils import pathsplit, urlsplit, urlunsplit, safe_urlsplit, SplitResult
-from ural.patterns import DOMAIN_TEMPLATE
+from ural.patterns import DOMAIN_TEMPLATE, ASCII
 from ural.get_hostname import get_hostname
 
 TELEGRAM_MESSAGE_ID_RE = re.compile(r"^\d+$")
+# NOTE: hostnames are matched caselessly over ascii letters only (with re.I alone,
+# "tw\u0131tter.com", with a dotless i, is read as "twitter.com")
 TELEGRAM_DOMAINS_RE = re.compile(
-    r"(?:^|\.)(?:telegram\.(?:org|me)|t\.me)\s*$", re.I
+    r"(?:^|\.)(?:telegram\.(?:org|me)|t\.me)\s*$", re.I | ASCII
 )
 TELEGRAM_URL_RE = re.compile(
     DOMAIN_TEMPLATE % r"(?:[^.]+\.)*(?:telegram\.(?:org|me)|t\.me)", re.I
